@@ -313,7 +313,7 @@ func TestC01(t *testing.T) {
 		variant := ev.ShardNo()*runs + run
 		u := newCDP(t, cdpOpts{variant: variant})
 		rnd := rng("C01", run)
-		cfg := cdpCfg{priceMoves: run%2 == 1 || variant%3 == 0, bids: true, lockers: true, unsolicited: true, liquidateMsg: true, reserve: variant%2 == 0}
+		cfg := cdpCfg{priceMoves: run%2 == 1 || variant%3 == 0, bids: true, lockers: true, unsolicited: true, liquidateMsg: true, reserve: variant%2 == 0, govChanges: variant%3 != 1}
 		r := newCdpRunner(u, rnd, rec, cfg, newC01Mon(u, rec))
 		r.run(cdpSteps())
 		// emergency shutdown of one app at the end of every second run
